@@ -183,7 +183,14 @@ def lib_computer(spec):
 
 
 def lib_signal(N, amp, xseed):
-    return amp * np.random.RandomState(xseed).randn(N)
+    x = np.random.RandomState(xseed).randn(N)
+    if amp == "dyn":
+        # a loud passage (16-bit full scale) followed by a very quiet one: per-frame quantities must be computed from the
+        # frame's own samples - anything carried along the signal (running sums, global scaling) loses the quiet part
+        x[: (2 * N) // 3] *= 8000.0
+        x[(2 * N) // 3:] *= 0.5
+        return x
+    return amp * x
 
 
 def library(ctx):
@@ -202,6 +209,8 @@ def library(ctx):
             for cen in (False, True):
                 for camp in (0.0, 1e-6, 1.0):
                     corners.append((ckind, cpow, cen, camp))
+    for ckind, cpow in (("fbank", True), ("tri", False), ("gabor", True)):
+        corners.append((ckind, cpow, True, "dyn"))
     for it in range(len(corners) + n):
         if ctx.out_of_time():
             break
@@ -233,6 +242,8 @@ def library(ctx):
         if corner:
             nsel, amp = 4, corner[3]
         N = [0, L // 2, L, L + 1, 3 * L + 7][nsel]
+        if amp == "dyn":
+            N = 9 * L + 7
         xseed = r.randrange(1 << 30)
         x = lib_signal(N, amp, xseed)
         case = dict(kind="library", L=L, S=S, N=N, amp=amp, xseed=xseed, **spec)
